@@ -28,7 +28,7 @@ ASSUMPTIONS = ['frame analyser: flow-insensitive within a function, field-sensit
                'library with input-derived arguments are assumed not to mutate them (listed in the evidence)',
                'only DASSH_Input.data is covered (material objects held by the input are refreshed before every use: C06)']
 NOT_DECIDED = ['bitwise identity of two executions beyond the listed generated problems (non-determinism of NumPy / the OS)',
-               'separate output directories per time point (file-system behaviour)']
+               'what the external power code (VARPOW) writes into the working directory']
 BOUNDED = ['run-time frame contract: deep comparison of DASSH_Input.data before/after Reactor(...) + sweep, second '
            'construction and bitwise-equal temperatures, on the generated problems listed in the evidence',
            'serial = parallel: dassh.__main__ run on a two-time-point problem with parallel on/off (thorough tier)']
@@ -298,11 +298,75 @@ schedule.cname = '__main__.run_dassh/schedule'
 schedule.run_kw = dict(check_div=False)
 
 
+def working_directory(S, cfg):
+    """the real Reactor.__init__ with every set-up stage replaced by a recorder: each stage (power set-up, which writes
+    and reads the VARPOW files, first of all) already sees the working directory that was requested for this time point,
+    so two time points never share intermediate files; without a request it is the input's directory."""
+    from dassh import reactor
+    import ast
+    import inspect
+    import textwrap
+    src = textwrap.dedent(inspect.getsource(reactor.Reactor.__init__))
+    stages = []
+    for n in ast.walk(ast.parse(src)):
+        if isinstance(n, ast.Call) and isinstance(n.func, ast.Attribute) and isinstance(n.func.value, ast.Name) \
+                and n.func.value.id == 'self' and n.func.attr not in stages:
+            stages.append(n.func.attr)
+    seen = []
+    made = []
+
+    def rec(name):
+        def f(self, *a, **k):
+            seen.append((name, getattr(self, 'path', '<unset>')))
+            if name == '_setup_zpts':
+                return np.array([0.0, 1.0]), np.array([1.0])
+            if name == '_calculate_total_fr':
+                return 1.0
+            if name == '_setup_asm_bc':
+                return None, None
+            return None
+        return f
+    Sub = type('RecReactor', (reactor.Reactor,), {m: rec(m) for m in stages if m not in ('log',)})
+    Sub.log = lambda self, *a, **k: None
+    Sub.total_power = 1.0
+    Sub.req_dz = 0.01
+
+    class Inp:
+        path = '/ghost/input_dir'
+        materials = {}
+        data = {'Setup': {'Units': {}}, 'Core': {'coolant_inlet_temp': 600.0, 'assembly_pitch': 0.1, 'gap_model': None}}
+
+    class _Os:
+        path = os.path
+
+        @staticmethod
+        def makedirs(p, exist_ok=False):
+            made.append(p)
+    requested = cfg.get('path')
+    with common_patched((reactor, 'os', _Os)):
+        try:
+            r = Sub(Inp(), path=requested, calc_power=False, timestep=cfg.get('timestep', 0))
+        except Exception as e:                 # a later, unrecorded step of __init__ (presweep of real assemblies ...)
+            r = None
+            S.note(f'__init__ stopped after the recorded stages with {type(e).__name__}: {e}')
+    want = requested if requested is not None else Inp.path
+    S.holds('workdir.stages_recorded', len(seen) >= 8 and any(nm == '_setup_power' for nm, _ in seen))
+    for nm, p in seen:
+        S.holds(f'workdir.stage_sees_requested_directory[{nm}]', p == want)
+    S.holds('workdir.directory_created', made == ([requested] if requested is not None else []))
+    S.holds('canary.workdir_is_input_directory', all(p == Inp.path for _, p in seen), canary=requested is not None)
+
+
+working_directory.cname = 'Reactor.__init__/working-directory'
+working_directory.run_kw = dict(check_div=False)
+
+
 def configs(tier):
     out = [(dump_files_fresh, dict(flags=[k], bypass=True)) for k in DUMP_FLAGS]
     out.append((dump_files_fresh, dict(flags=list(DUMP_FLAGS), bypass=True)))
     out.append((dump_files_fresh, dict(flags=['coolant', 'pressure_drop'], bypass=False)))
     out += [(tracker_reference, dict(forced=True)), (tracker_reference, dict(forced=False))]
+    out += [(working_directory, dict(path='/ghost/input_dir/timestep_2', timestep=1)), (working_directory, dict(path=None))]
     for n in (1, 2, 3, 4):
         out += [(schedule, dict(timepoints=n, parallel=False, n_cpu=None)),
                 (schedule, dict(timepoints=n, parallel=True, n_cpu=None)),
